@@ -560,7 +560,9 @@ fn gen_p(ctx: &Ctx, seed: u64, run_index: u64) -> PScn {
         };
         plan = vec![PlanEntry { idx: y.next_u64(), kind: PlanKind::Measured(mclass) }];
     }
-    let debug_build = ctx.thorough() && ctx.sut_debug.is_some() && s.chance(0.3);
+    // the debug profile (overflow checks, debug assertions; a panic never terminates there): 30 % of the incarnations
+    // of the thorough tier, 8 % of the quick tier's
+    let debug_build = ctx.sut_debug.is_some() && s.chance(if ctx.thorough() { 0.3 } else { 0.08 });
     PScn { image, inc: Incarnation { argv, entropy: s.next_u64(), plan, debug_build }, rerun_entropy: s.next_u64(), fired_stored: fired, valid_input }
 }
 
@@ -714,6 +716,33 @@ pub fn execute_p(ctx: &Ctx, scn: &PScn, ex: &mut Exec, fp: &mut Fnv) -> Option<V
         if violation.is_none() {
             // a delivered hard fault must be reported, not swallowed
             let hard: Vec<&TraceLine> = out.trace.iter().filter(|t| t.fault == "err").collect();
+            // a requested output that really could not be created (missing directory, path is a directory: no injected
+            // fault needed) and was not created later either, yet exit 0: the error was swallowed as well
+            if out.exit == Some(0) && hard.is_empty() {
+                let mut named: Vec<&String> = Vec::new();
+                for (i, a) in scn.inc.argv.iter().enumerate() {
+                    if ["--oc", "--of", "--json", "--xml", "--txt"].contains(&a.as_str()) {
+                        if let Some(v) = scn.inc.argv.get(i + 1) {
+                            named.push(v);
+                        }
+                    }
+                }
+                for name in named {
+                    let is_create = |t: &&TraceLine| (t.call == "open" || t.call == "openat") && (t.req & 0o100) != 0 && t.path == *name;
+                    let failed = out.trace.iter().filter(is_create).filter(|t| t.res < 0 && t.errno != 4).last();
+                    if let Some(f) = failed {
+                        let later_ok = out.trace.iter().any(|t| t.idx > f.idx && ((is_create(&t) && t.res >= 0) || (t.call == "rename" && t.path == *name && t.res >= 0)));
+                        if !later_ok {
+                            violation = Some(Violation::new(
+                                "error_swallowed",
+                                "open",
+                                format!("{}: the requested output {:?} could not be created ({}) but the program exited 0", what, name, worldp::errno_name(f.errno)),
+                            ));
+                            break;
+                        }
+                    }
+                }
+            }
             if let Some(t) = hard.first() {
                 if out.exit == Some(0) {
                     // exit 0 after a failed call is legitimate only if the program really worked around it (retried,
